@@ -134,7 +134,7 @@ def run(ctx):
     ctx.sample({"recorded": {"type": events[0]["name"], "bytes": bytes(events[0]["bytes"]).hex(), "outcome": events[0]["st"],
                              "verdict": verdicts[0]["verdict"]}})
     if crashes:
-        ctx.note("decoder killed its worker process %d times (fatal out-of-memory in an input-sized allocation)" % crashes)
+        ctx.note("a decoder killed or hung its worker process %d times (fatal out-of-memory in an input-sized allocation, or no return)" % crashes)
     ctx.cov["evaluations"] = totals["encodes"] + totals["decodes"] + len(events)
     ctx.cov["distinct_nontrivial"] = len(classes)
     return ctx.finish(
